@@ -3,7 +3,7 @@ import itertools
 from .lib import *
 
 RULE = ("exhaustive in both tiers: 9 standard methods x every status 300..399 x both auth policies x response with / without body "
-        "(3600 flows; boundary statuses also with a close-delimited body), plus statuses 200, 299, 400 as negative cases for entering the redirect state, plus the same cells reached on two "
+        "(3600 flows; boundary statuses also with a close-delimited body, without a Location field, and for requests that declare Transfer-Encoding: chunked themselves), plus statuses 200, 299, 400 as negative cases for entering the redirect state, plus the same cells reached on two "
         "other paths (body method whose Expect: 100-continue is refused by the 3xx response itself; body-less method with "
         "send_body_despite_method) for the boundary statuses (thorough: every 3xx). Each flow is driven to the "
         "state after the response (through the body when there is one), asked for its status, followed with as_new_flow, and the "
@@ -20,8 +20,8 @@ def table(status, method):
     return "HEAD" if method == "HEAD" else "GET"
 
 
-def build(method, status, policy, with_body, path="plain"):
-    fields = [(b"Location", b"/n")]
+def build(method, status, policy, with_body, path="plain", loc=True):
+    fields = [(b"Location", b"/n")] if loc else []
     if path == "refused":
         # body method with Expect: 100-continue, refused by the very 3xx response while awaiting 100 (the body is never sent)
         refusal = render_response_head("1.1", status, b"R", fields + [(b"Content-Length", b"3" if with_body else b"0")])
@@ -31,6 +31,10 @@ def build(method, status, policy, with_body, path="plain"):
         # body-less method sending a body despite the method
         ops = [op_new(method, "1.1", "http", "a.test", "/o", []), "despite", "proceed", "write_head #4096", "proceed", "write_body %s #100" % hx(b"hi"),
                "write_body x #100", "proceed"]
+    elif path == "te":
+        # the request declares its own Transfer-Encoding: chunked (inherited by the redirected request together with the other headers)
+        ops = [op_new(method, "1.1", "http", "a.test", "/o", [("transfer-encoding", "chunked"), ("authorization", "a"), ("cookie", "c=1")]), "proceed",
+               "write_head #4096", "proceed", "write_body %s #100" % hx(b"hi"), "write_body x #100", "proceed"]
     elif method in BODY_METHODS:
         ops = [op_new(method, "1.1", "http", "a.test", "/o", [("content-length", "0")]), "proceed", "write_head #4096", "proceed", "write_body x #0", "proceed"]
     else:
@@ -46,7 +50,7 @@ def build(method, status, policy, with_body, path="plain"):
     if with_body and method != "HEAD" and status not in (204, 304) and not (method == "CONNECT" and 200 <= status <= 299):
         ops += ["raw_read %s #100" % hx(b"abc"), "proceed"]
     ops += ["q_status", "as_new_flow %s" % policy, "follow", "q_method", "q_uri"]
-    return {"ops": ops, "meta": {"cell": [method, status, policy, with_body], "path": path}}
+    return {"ops": ops, "meta": {"cell": [method, status, policy, with_body], "path": path, "loc": loc}}
 
 
 def generate(rng, tier, mult):
@@ -58,6 +62,11 @@ def generate(rng, tier, mult):
     extra_status = list(range(300, 400)) if tier == "thorough" else [300, 301, 302, 303, 304, 305, 307, 308, 399]
     for m, s, p in itertools.product(METHODS, extra_status + [200], ["never", "same_host"]):
         out.append(build(m, s, p, "close"))
+    # a 3xx that carries no Location field is a redirect all the same (with and without a body); following it is an error
+    for m, s, p, b in itertools.product(METHODS, extra_status, ["never", "same_host"], [False, True, "close"]):
+        out.append(build(m, s, p, b, loc=False))
+    for m, s, p, b in itertools.product(BODY_METHODS, extra_status, ["never", "same_host"], [False, True]):
+        out.append(build(m, s, p, b, "te"))
     for m, s, p, b in itertools.product(BODY_METHODS, extra_status, ["never", "same_host"], [False, True]):
         out.append(build(m, s, p, b, "refused"))
     for m, s, p, b in itertools.product(["GET", "HEAD", "DELETE", "OPTIONS", "TRACE"], extra_status, ["never", "same_host"], [False, True]):
@@ -74,7 +83,8 @@ def oracle(script, obs):
     ops = script["ops"]
     if any(o == "panic" for o in obs):
         return ["panic in cell %s" % script["meta"]["cell"]]
-    cell = "%s %d %s body=%s%s" % (m, s, p, b, "" if script["meta"].get("path", "plain") == "plain" else " (%s)" % script["meta"]["path"])
+    cell = "%s %d %s body=%s%s%s" % (m, s, p, b, "" if script["meta"].get("path", "plain") == "plain" else " (%s)" % script["meta"]["path"],
+                                     "" if script["meta"].get("loc", True) else " (no Location field)")
     # HEAD responses never have a body: the flow goes straight on
     has_body = b and m != "HEAD" and s not in (204, 304) and not (m == "CONNECT" and 200 <= s <= 299)
     i = next(k for k, op in enumerate(ops) if op.startswith("raw_try_response"))
@@ -95,6 +105,10 @@ def oracle(script, obs):
     k = next(j for j, op in enumerate(ops) if op == "q_status")
     if obs[k] != "#%d" % s:
         return ["%s: redirect state reports status %s" % (cell, obs[k])]
+    if not script["meta"].get("loc", True):
+        if not obs[k + 1].startswith("err"):
+            return ["%s: a redirect without a Location field cannot be followed, as_new_flow gave %s" % (cell, obs[k + 1])]
+        return []
     exp = table(s, m)
     if exp is None:
         _stats["not_followed"] += 1
